@@ -1800,6 +1800,17 @@ func frameNonceStress(rep *vreport, keys map[string]bool) {
 		{"default(NewEntropy), 12-byte AEAD nonces", func() io.Reader { return orig }, 12},
 		{"NewEntropyAES", NewEntropyAES, 16},
 		{"NewEntropyChacha8", NewEntropyChacha8, 16},
+		// the re-keying path (every 2^24 reads): the run starts a few hundred reads before it
+		{"NewEntropyAES across a reseed", func() io.Reader {
+			r := NewEntropyAES()
+			r.(*rngAES).count = reseedInterval - 700
+			return r
+		}, 16},
+		{"NewEntropyChacha8 across a reseed", func() io.Reader {
+			r := NewEntropyChacha8()
+			r.(*rngChacha8).count = reseedInterval - 700
+			return r
+		}, 12},
 	}
 	for _, g := range gens {
 		SetEntropy(g.mk())
